@@ -18,8 +18,15 @@
 (*                .await {..}` on an executor: a task that returned Pending *)
 (*                is polled again ONLY after its waker was woken.           *)
 (*                                                                          *)
-(*  Publisher     CreateStream / Publish  `ephemeral_stream` (line 216) and *)
-(*                                        `publish` (lines 284-306)         *)
+(*  Publisher     CreateStream            `ephemeral_stream` (line 216)     *)
+(*                DrawTs / SignEncode / SendTry / SendResume / Return /     *)
+(*                Drain                   the steps of `publish` (lines     *)
+(*                                        291-330) for every handle (clones *)
+(*                                        share the clock behind one mutex) *)
+(*                                        over the bounded mpsc channel to  *)
+(*                                        the gossip actor; publishes of    *)
+(*                                        different handles may overlap at  *)
+(*                                        the send await                    *)
 (*                                                                          *)
 (* Bytes, CBOR and Ed25519 are abstracted: an item on the channel is a      *)
 (* CLASS (what was done to a message a publisher produced); the three       *)
@@ -34,10 +41,18 @@ CONSTANTS
     Classes,            \* item classes the network may deliver (subset of AllClasses)
     MaxSend,            \* items delivered in total            (bounded by construction, no CONSTRAINT)
     Wall,               \* values a wall-clock reading may return
-    MaxPublish,         \* publishes in total
+    MaxPublish,         \* publishes (timestamp draws) in total
+    Handles,            \* publisher handles (`EphemeralStreamPublisher` and its clones; they share the clock)
+    GCaps,              \* capacities of the mpsc channel publisher -> gossip actor (`to_topic_tx`)
+    SplitCommit,        \* FALSE: the clock is advanced AND stored in one critical section (the code, line 301-308)
+                        \* TRUE:  model-level mutant "store the drawn timestamp only after the send returned"
     PendingWithoutWake, \* TRUE: poll_next as it was before commit "fix: ephemeral subscription ..."
                         \*       (returns Poll::Pending after an invalid / lagged item, no waker registered)
-    ClockAsCoded        \* TRUE: HybridTimestamp::increment as it was before its repair (see spec/HybridClock)
+    ClockAsCoded,       \* TRUE: HybridTimestamp::increment as it was before its repair (see spec/HybridClock)
+    SkipBudget,         \* 0: one poll_next call skips as many invalid / lagged items in a row as there are (the
+                        \*     code: `loop`); k > 0: an implementation that returns Pending after k skips in one call
+    BudgetSelfWake      \* only with a budget: TRUE = it calls `cx.waker().wake_by_ref()` before that Pending (fine),
+                        \* FALSE = it does not (model-level mutant: nothing was registered, the task is lost)
 
 ---------------------------------------------------------------------------
 (* Item classes and the verdict of WrappedMessage::from_bytes (lines 71-102) *)
@@ -81,22 +96,31 @@ VARIABLES
     registered, \* the task's waker is registered with the channel (a `recv` found it empty)
     task,       \* "runnable" (scheduled; a poll_next call starts), "polling" (inside poll_next,
                 \*  between two inner polls), "parked" (returned Pending), "done" (saw None)
+    skips,      \* items skipped in a row by the running poll_next call
     yielded,    \* items yielded by the subscription, in order
     dropped,    \* ids overwritten in the channel before the receiver saw them
     skipped,    \* ids consumed and rejected
     pts,        \* publisher: the HybridTimestamp behind the mutex (<<-1,-1>> before the stream exists)
-    published   \* publisher: timestamps of the messages handed to gossip, in order
+    gcap,       \* publisher: capacity of the channel to the gossip actor of this run
+    ppc,        \* publisher: per handle, where its publish call is: "idle", "drawn", "signed",
+                \*            "waiting" (parked in the send await), "granted" (woken, permit assigned), "sent"
+    held,       \* publisher: per handle, the timestamp its running call drew (what it signs)
+    waitq,      \* publisher: handles parked in `send().await`, in arrival order (tokio's mpsc is FIFO-fair)
+    gq,         \* publisher: messages [ts, h] in the channel, not yet taken by the gossip actor
+    drawn,      \* publisher: every timestamp drawn, in draw order
+    published   \* publisher: every message handed to the channel, in channel order
 
-subvars == <<cap, chan, sent, closed, registered, task, yielded, dropped, skipped>>
-pubvars == <<pts, published>>
-vars == <<cap, chan, sent, closed, registered, task, yielded, dropped, skipped, pts, published>>
+subvars == <<cap, chan, sent, closed, registered, task, skips, yielded, dropped, skipped>>
+pubvars == <<pts, gcap, ppc, held, waitq, gq, drawn, published>>
+vars == <<cap, chan, sent, closed, registered, task, skips, yielded, dropped, skipped,
+          pts, gcap, ppc, held, waitq, gq, drawn, published>>
 
 Body(ch) == IF ch # <<>> /\ ch[1] = Lag THEN Tail(ch) ELSE ch
 Range(s) == {s[k] : k \in DOMAIN s}
 
 SubInit ==
     /\ cap \in Caps /\ chan = <<>> /\ sent = 0 /\ closed = FALSE
-    /\ registered = FALSE /\ task = "runnable"
+    /\ registered = FALSE /\ task = "runnable" /\ skips = 0
     /\ yielded = <<>> /\ dropped = {} /\ skipped = {}
 
 \* tokio broadcast: `send` wakes every waiting receiver
@@ -115,26 +139,26 @@ Send(c) ==
                /\ dropped' = dropped \cup {body[1].id}
     /\ sent' = sent + 1
     /\ Wake
-    /\ UNCHANGED <<cap, closed, yielded, skipped>>
+    /\ UNCHANGED <<cap, closed, skips, yielded, skipped>>
 
 \* every sender is dropped (gossip shut down, handles dropped)
 Close ==
     /\ ~closed /\ closed' = TRUE
     /\ Wake
-    /\ UNCHANGED <<cap, chan, sent, yielded, dropped, skipped>>
+    /\ UNCHANGED <<cap, chan, sent, skips, yielded, dropped, skipped>>
 
 Running == task \in {"runnable", "polling"}
 
 \* inner stream Pending: `ready!` returns Pending, the waker has been registered by `recv`
 PollEmpty ==
     /\ Running /\ chan = <<>> /\ ~closed
-    /\ registered' = TRUE /\ task' = "parked"
+    /\ registered' = TRUE /\ task' = "parked" /\ skips' = 0
     /\ UNCHANGED <<cap, chan, sent, closed, yielded, dropped, skipped>>
 
 \* inner stream ended: Ready(None)
 PollClosed ==
     /\ Running /\ chan = <<>> /\ closed
-    /\ task' = "done"
+    /\ task' = "done" /\ skips' = 0
     /\ UNCHANGED <<cap, chan, sent, closed, registered, yielded, dropped, skipped>>
 
 \* Some(Ok(bytes)) and from_bytes is Ok: Ready(Some(message)); the consumer loop polls again
@@ -142,14 +166,19 @@ PollValid ==
     /\ Running /\ chan # <<>> /\ chan[1] # Lag /\ Accept(chan[1].cls)
     /\ yielded' = Append(yielded, chan[1])
     /\ chan' = Tail(chan)
-    /\ task' = "runnable"
+    /\ task' = "runnable" /\ skips' = 0
     /\ UNCHANGED <<cap, sent, closed, registered, dropped, skipped>>
 
 \* after an item that is not handed to the user
 AfterSkip ==
     IF PendingWithoutWake
-    THEN task' = "parked"       \* `Poll::Pending` (lines 386, 393): nobody registered a waker
-    ELSE task' = "polling"      \* repaired: loop, poll the inner stream again
+    THEN task' = "parked" /\ skips' = 0      \* `Poll::Pending` (before the repair): nobody registered a waker
+    ELSE IF SkipBudget # 0 /\ skips + 1 >= SkipBudget
+         THEN \* (not the code) a per-call budget is used up: Pending; either the call woke its own waker -
+              \* the executor polls again - or the task is parked with nothing registered
+              /\ skips' = 0
+              /\ task' = IF BudgetSelfWake THEN "runnable" ELSE "parked"
+         ELSE task' = "polling" /\ skips' = skips + 1     \* the code: loop, poll the inner stream again
 
 \* Some(Ok(bytes)) and from_bytes is Err
 PollReject ==
@@ -189,22 +218,78 @@ Increment(ts, wall) ==                   \* p2panda-core/src/timestamp.rs:136-14
     ELSE (IF wall > ts[1] THEN <<wall, 0>> ELSE <<ts[1], ts[2] + 1>>)
 
 NoTs == <<-1, -1>>
-PubInit == pts = NoTs /\ published = <<>>
+PubInit ==
+    /\ pts = NoTs /\ gcap \in GCaps
+    /\ ppc = [h \in Handles |-> "idle"] /\ held = [h \in Handles |-> NoTs]
+    /\ waitq = <<>> /\ gq = <<>> /\ drawn = <<>> /\ published = <<>>
 
-\* ephemeral_stream (line 221): timestamp: HybridTimestamp::now()
+\* ephemeral_stream (line 216): timestamp: HybridTimestamp::now()
 CreateStream(w) ==
     /\ pts = NoTs
     /\ pts' = <<w, 0>>
-    /\ UNCHANGED published
+    /\ UNCHANGED <<gcap, ppc, held, waitq, gq, drawn, published>>
 
-\* publish (lines 291-305): under the mutex *timestamp = timestamp.increment(); sign; gossip publish
-Publish(w) ==
-    /\ pts # NoTs /\ Len(published) < MaxPublish
-    /\ pts' = Increment(pts, w)
-    /\ published' = Append(published, Increment(pts, w))
+\* publish, lines 301-308: lock; *timestamp = timestamp.increment(); copy; unlock - ONE critical section
+DrawTs(h, w) ==
+    /\ pts # NoTs /\ ppc[h] = "idle" /\ Len(drawn) < MaxPublish
+    /\ LET ts == Increment(pts, w)
+       IN /\ pts' = IF SplitCommit THEN pts ELSE ts
+          /\ held' = [held EXCEPT ![h] = ts]
+          /\ drawn' = Append(drawn, ts)
+    /\ ppc' = [ppc EXCEPT ![h] = "drawn"]
+    /\ UNCHANGED <<gcap, waitq, gq, published>>
+
+\* lines 310-313: WrappedMessage::new(message, timestamp, key) and to_bytes: a function of held[h]
+SignEncode(h) ==
+    /\ ppc[h] = "drawn"
+    /\ ppc' = [ppc EXCEPT ![h] = "signed"]
+    /\ UNCHANGED <<pts, gcap, held, waitq, gq, drawn, published>>
+
+Msg(h) == [ts |-> held[h], h |-> h]
+Granted == {h \in Handles : ppc[h] = "granted"}
+\* tokio bounded mpsc: a permit per queued message; freed permits go to parked senders first
+Room == waitq = <<>> /\ Len(gq) + Cardinality(Granted) < gcap
+
+\* lines 315-318: self.inner.publish(bytes).await, first poll: enqueue, or park in the await
+SendTry(h) ==
+    /\ ppc[h] = "signed"
+    /\ IF Room
+       THEN /\ gq' = Append(gq, Msg(h)) /\ published' = Append(published, Msg(h))
+            /\ ppc' = [ppc EXCEPT ![h] = "sent"]
+            /\ UNCHANGED waitq
+       ELSE /\ waitq' = Append(waitq, h)
+            /\ ppc' = [ppc EXCEPT ![h] = "waiting"]
+            /\ UNCHANGED <<gq, published>>
+    /\ UNCHANGED <<pts, gcap, held, drawn>>
+
+\* the gossip actor takes a message out of the channel; the freed permit wakes the first parked sender
+Drain ==
+    /\ gq # <<>>
+    /\ gq' = Tail(gq)
+    /\ IF waitq # <<>>
+       THEN ppc' = [ppc EXCEPT ![Head(waitq)] = "granted"] /\ waitq' = Tail(waitq)
+       ELSE UNCHANGED <<ppc, waitq>>
+    /\ UNCHANGED <<pts, gcap, held, drawn, published>>
+
+\* the woken sender is polled again: the send completes
+SendResume(h) ==
+    /\ ppc[h] = "granted"
+    /\ gq' = Append(gq, Msg(h)) /\ published' = Append(published, Msg(h))
+    /\ ppc' = [ppc EXCEPT ![h] = "sent"]
+    /\ UNCHANGED <<pts, gcap, held, waitq, drawn>>
+
+\* Ok(()) (line 320ff)
+Return(h) ==
+    /\ ppc[h] = "sent"
+    /\ ppc' = [ppc EXCEPT ![h] = "idle"]
+    /\ pts' = IF SplitCommit THEN held[h] ELSE pts
+    /\ UNCHANGED <<gcap, held, waitq, gq, drawn, published>>
 
 PubNext ==
-    /\ \E w \in Wall : CreateStream(w) \/ Publish(w)
+    /\ \/ \E w \in Wall : CreateStream(w)
+       \/ \E h \in Handles, w \in Wall : DrawTs(h, w)
+       \/ \E h \in Handles : SignEncode(h) \/ SendTry(h) \/ SendResume(h) \/ Return(h)
+       \/ Drain
     /\ UNCHANGED subvars
 
 Init == SubInit /\ PubInit
@@ -245,11 +330,19 @@ Conservation ==
             \/ x = "skipped" /\ n \in skipped}) = 1
 
 (* C16, publisher side                                                      *)
-\* successive publishes carry strictly increasing timestamps ..
+\* timestamps strictly increase in the order in which publishes draw them (= the order of the
+\* publishes for sequential use; overlapping publishes of clones are ordered by the mutex) ..
 TimestampsStrictlyIncrease ==
-    \A j, k \in DOMAIN published : j < k => TLess(published[j], published[k])
+    \A j, k \in DOMAIN drawn : j < k => TLess(drawn[j], drawn[k])
 \* .. so no two published messages are byte-identical (same author, possibly the same body: the
 \* timestamp pair is the only field that can differ)
 PublishedDistinct ==
-    \A j, k \in DOMAIN published : j # k => published[j] # published[k]
+    \A j, k \in DOMAIN published : j # k => published[j].ts # published[k].ts
+\* the messages of one handle reach the channel in the order of their timestamps
+PerHandleInOrder ==
+    \A j, k \in DOMAIN published :
+        j < k /\ published[j].h = published[k].h => TLess(published[j].ts, published[k].ts)
+\* the stored clock is the last timestamp drawn, and never goes back
+ClockIsLastDrawn == drawn # <<>> => pts = drawn[Len(drawn)]
+ClockNeverRegresses == [][pts # NoTs => ~TLess(pts', pts)]_vars
 ===========================================================================
